@@ -712,7 +712,8 @@ Section ManagerP.
         destruct (g_versioning g) eqn:Hv.
         + exact (Hflushlike (Flush objs ents assoc) eq_refl).
         + rewrite <- core_of_core_view. apply Hplain. rewrite <- core_of_core_view. simpl.
-          apply (flush_off g (core_of G (ss_conn s)) objs ents assoc Hv).
+          destruct (hier_pass_parts g (flush g (core_of G (ss_conn s)) objs ents assoc)) as [_ [_ [_ [_ [_ [Eu _]]]]]].
+          rewrite Eu. apply (flush_off g (core_of G (ss_conn s)) objs ents assoc Hv).
       - (* Commit *)
         set (st := step g (core_of G (ss_conn s)) Commit).
         set (G0 := store G (ss_conn s) st false).
